@@ -680,6 +680,14 @@ class Grid:
             # Need to copy to avoid modifying in-place. Ideally we would test for this behaviour specifically
             array = data.copy(deep=False)
 
+        if funcname == "interp" and data_unpacked.dtype.kind in "iub":
+            # the mean of two integers is not an integer: a lazy result declared with the
+            # dtype of integer data would be cut back to integers by the next step
+            if isinstance(array, dict):
+                array = {k: v.astype(float) for k, v in array.items()}
+            else:
+                array = array.astype(float)
+
         # Apply 1D function over multiple axes
         # TODO This will call xarray.apply_ufunc once for each axis, but if signatures + kwargs are the same then we
         # TODO only actually need to call apply_ufunc once for those axes
